@@ -65,6 +65,10 @@ def execute(ctx, case):
     C = lambda ok, what, key, **kw: sess.check("R-sym", bool(ok), what, w(**kw), sig=sig, key=key)  # noqa: E731
     both = len(pos) > 0 and len(neg) > 0
     # ---- swap ------------------------------------------------------------------------------------
+    if case["_seed"] % 2 and both:  # the parent has a query history before it is swapped
+        s.eer()
+        for m in METRICS:
+            getattr(s, "threshold_at_" + m)(rs[:3])
     sw = s.swap()
     C((sw.score_class.value, sw.equal_class.value, sw.nb_easy_pos, sw.nb_easy_neg) == (FLIP[sc], FLIP[ec], en, ep) and np.array_equal(sw.pos, s.neg) and np.array_equal(sw.neg, s.pos),
       "swap() does not exchange classes, easy counts and both flags", "sym-swap-object")
